@@ -14,6 +14,8 @@ mod c13_rd;
 mod c13_coq;
 #[path = "c13_br.rs"]
 mod c13_br;
+#[path = "c13_uni.rs"]
+mod c13_uni;
 
 const HEADER: &str = r#"From ZV.Common Require Import Base Run.
 From ZV.C13 Require Import Model ModelRun.
@@ -41,6 +43,8 @@ pub struct Ctx {
     coq_budget2: usize,
     coq_used2: usize,
     op_used: std::collections::HashMap<u32, usize>,
+    /// Coq cases of the type-universe / versioned-record models, per cell
+    uni_used: std::collections::HashMap<String, usize>,
     rng: Rng,
     tmp: String,
     format_drift: bool,
@@ -93,7 +97,8 @@ impl Ctx {
         let cap = match op { 0..=3 => 230, 4..=7 => 160, 8..=13 => 110, 14 | 15 => 100, 16 | 17 => 50, 18 | 19 => 130, 20..=22 => 50, 30..=32 => 230, _ => 50 } * self.coq_budget / 2400;
         let used = self.op_used.entry(op).or_insert(0);
         if !force && *used >= cap { return; }
-        *used += 1;
+        // forced cases (corpus, the per-cell budgets of the newer models) do not eat the operation's share
+        if !force { *used += 1; }
         let term = format!(
             "({}, {}, {}, {}, {})",
             op, s, coq_z_list(ints.iter().cloned()), coq_bytes(bytes),
@@ -602,6 +607,7 @@ pub fn run(args: &Args) {
         coq_budget2: if args.thorough { 12000 } else { 1400 },
         coq_used2: 0,
         op_used: Default::default(),
+        uni_used: Default::default(),
         rng: Rng::new(args.seed),
         tmp: format!("{}/tmp", args.out),
         format_drift: false,
